@@ -1,1 +1,89 @@
-From Servitor Require Import Base.
+(* C15 - Rendered markup fits the requested width and depends only on content and width.
+   [render_with_links] is the model of hypertext (and, through goldmark's HTML, markdown)
+   renderWithLinks over the tree html.ParseFragment returns.  Only property theorems here. *)
+
+From Servitor Require Import Base Unicode Ansi AnsiSpec Term Style Html Gemtext Plaintext.
+From Servitor.Facts Require Import StyleFacts HtmlFacts LinkFacts.
+Local Open Scope Z_scope.
+
+(* for EVERY tree and every width >= 1, every printed line re-scans to at most w visible characters (from the final whole-output wrap, however the inner blocks behave at exhausted widths) *)
+Theorem render_fits :
+  forall (col : colors) (ns : list node) (w : Z),
+  1 <= w ->
+  colors_ok col ->
+  Forall (fun l : text => clen (expand l) <= w) (split_nl (fst (render_with_links col ns w))).
+Proof. exact render_fits_fact. Qed.
+Print Assumptions render_fits.
+
+(* the rendering is a well-formed styled text whose letters are all printable *)
+Theorem render_good :
+  forall (col : colors) (ns : list node) (w : Z),
+  colors_ok col -> good (fst (render_with_links col ns w)).
+Proof. exact render_good_fact. Qed.
+Print Assumptions render_good.
+
+(* the link list does not depend on the width *)
+Theorem labels_width_independent :
+  forall (col : colors) (ns : list node) (w1 w2 : Z),
+  snd (render_full col ns w1) = snd (render_full col ns w2).
+Proof. exact labels_width_independent_fact. Qed.
+Print Assumptions labels_width_independent.
+
+Theorem gem_links_width_independent :
+  forall (col : colors) (t : text) (w1 w2 : Z),
+  snd (gem_render_with_links col t w1) = snd (gem_render_with_links col t w2).
+Proof. exact gem_links_width_independent_fact. Qed.
+Print Assumptions gem_links_width_independent.
+
+Theorem plain_links_width_independent :
+  forall (col : colors) (t : text) (w1 w2 : Z),
+  snd (plain_render_with_links col t w1) = snd (plain_render_with_links col t w2).
+Proof. exact plain_links_width_independent_fact. Qed.
+Print Assumptions plain_links_width_independent.
+
+From Servitor.Facts Require Import MarkupFacts.
+(* gemtext (with the repair: the renderer wraps) and plain text, for every scrubbed content *)
+Theorem gem_render_fits :
+  forall (col : colors) (t : text) (w : Z),
+  1 <= w ->
+  colors_ok col ->
+  clean t ->
+  Forall (fun l : text => clen (expand l) <= w)
+  (split_nl (fst (gem_render_with_links col t w))).
+Proof. exact gem_render_fits_fact. Qed.
+Print Assumptions gem_render_fits.
+
+Theorem plain_render_fits :
+  forall (col : colors) (t : text) (w : Z),
+  1 <= w ->
+  colors_ok col ->
+  clean t ->
+  Forall (fun l : text => clen (expand l) <= w)
+  (split_nl (fst (plain_render_with_links col t w))).
+Proof. exact plain_render_fits_fact. Qed.
+Print Assumptions plain_render_fits.
+
+(* History independence.  The per-markup cache is the two-field state machine (cached text,
+   cached width); Render w returns the cached text iff the widths are equal and otherwise
+   recomputes and overwrites both.  For ANY pure rendering function f (the three renderers are
+   functions of content and width only - they are Gallina functions) and ANY sequence of
+   widths, the k-th Render returns f wk. *)
+Section Cache.
+Variable f : Z -> text.
+Definition cache_step (st : text * Z) (w : Z) : (text * Z) * text :=
+  if Z.eqb (snd st) w then (st, fst st) else ((f w, w), f w).
+Fixpoint cache_run (st : text * Z) (ws : list Z) : list text :=
+  match ws with [] => [] | w :: r => let (st', out) := cache_step st w in out :: cache_run st' r end.
+Lemma cache_inv st ws : fst st = f (snd st) -> cache_run st ws = map f ws.
+Proof.
+  revert st; induction ws as [|w r IH]; intros st H; [reflexivity|].
+  cbn [cache_run map]. unfold cache_step. destruct (Z.eqb (snd st) w) eqn:E.
+  - apply Z.eqb_eq in E. rewrite IH by exact H. rewrite H, E. reflexivity.
+  - rewrite IH by reflexivity. reflexivity.
+Qed.
+End Cache.
+
+Theorem render_cache_pure :
+  forall (f : Z -> text) (ws : list Z), cache_run f (f 80, 80) ws = map f ws.
+Proof. intros f ws. apply cache_inv. reflexivity. Qed.
+Print Assumptions render_cache_pure.
